@@ -6,7 +6,7 @@ REV=""
 if [ "$1" = "-R" ]; then REV="-R"; shift; fi
 PATCH="$1"; shift; shift
 if ! git -C /repo diff --quiet; then echo "with_patch: /repo working tree is dirty" >&2; exit 3; fi
-git -C /repo apply $REV "$PATCH" || { echo "with_patch: patch does not apply" >&2; exit 3; }
+git -C /repo apply $REV "$(realpath "$PATCH")" || { echo "with_patch: patch does not apply" >&2; exit 3; }
 cd /verif
 "$@"
 rc=$?
